@@ -37,7 +37,7 @@ theorem settle_halted (cfg : Cfg) (hs : cfg.skipStale = false) (st : St) (hn : (
   · exact runHead_no_spin cfg hs _ st hn
   · rfl
 
-theorem sortSids_nil : sortSids [] = [] := by simp [sortSids]
+theorem sortSids_nil : sortSids [] = [] := rfl
 
 /-- `doUnsub` from any consistent state ends with empty bookkeeping, empty routing table, no task -/
 theorem doUnsub_clean (cfg : Cfg) (hd : cfg.delEarly = false) (st : St) (h : Core st) (ht : TaskOk st)
